@@ -319,6 +319,13 @@ def _shard_real(shard, seed, tier):
                 rig.write_file(os.path.join(srv.root, "d", "n.txt"), b"new\n")
                 os.chmod(os.path.join(srv.root, "d", "n.txt"), 0o644)
                 hit, _ = srv.fetch(b"/d\r\n")
+                if time.time() - t0 > 2.0:
+                    # a machine so loaded that the preparation took most of the lifetime: the entry may have been
+                    # rewritten legitimately in the meantime; count from the file's own time stamp
+                    try:
+                        t0 = max(t0, os.stat(cpath).st_mtime)
+                    except OSError:
+                        pass
                 if b"n.txt" in hit:
                     part.count("real_case_without_cache_hit")  # the premise (a live cache entry) does not hold: nothing to learn
                 if case == "chmod-cache":
